@@ -76,6 +76,16 @@ func drawProgram(t *rapid.T) *program {
 	for i := range fileSrc {
 		fileSrc[i].WriteString(lineDirective("linedir"))
 		fileSrc[i].WriteString("package p\n\n")
+		// gofmt does more than layout: it sorts import blocks and rewrites number literals (0XFF -> 0xFF,
+		// 1E6 -> 1e6); a rewritten file has to be the gofmt of its original in these respects too
+		if rapid.IntRange(0, 7).Draw(t, "unsorted-imports") == 0 {
+			fmt.Fprintf(&fileSrc[i], "import (\n\t\"strings\"\n\t\"errors\"\n)\n\nvar _, _ = strings.ToUpper, errors.New\n\n")
+			pr.desc = append(pr.desc, "unsorted-imports")
+		}
+		if rapid.IntRange(0, 2).Draw(t, "odd-literals") == 0 {
+			fmt.Fprintf(&fileSrc[i], "var lits%d = []float64{0XFF, 1E6, 0B101, 0O17, 0X1P-2}\n\n", i)
+			pr.desc = append(pr.desc, "odd-literals")
+		}
 		if rapid.Bool().Draw(t, "filecomment") {
 			fmt.Fprintf(&fileSrc[i], "// file %d keeps this comment.\n\n", i)
 		}
